@@ -74,6 +74,31 @@ void run_c06(sim::RunCtx& ctx) {
             exec::compare_chunk(rc, want, t.cols[c], exec::mode_name(mode), (int)g, (int)c);
             if (sim::draw(3) == 0) { readhist::ChunkRef cr{(int)g, (int)c, &t.cols[c], &want, L.chunks[li].page_entries}; readhist::run_column_history(o->r, cr, readhist::gen_ops(10), exec::mode_name(mode), nullptr); }
         }
+        // the batch reader has no way to express lists: on a file with REPEATED columns it must refuse, not hand out batches that drop or shift entries
+        bool has_rep = false; for (auto& c : t.cols) has_rep = has_rep || c.max_rep > 0;
+        if (has_rep && rows > 0 && mode == (int)(L.rng_seed % 3)) {
+            carquet_batch_reader_config_t bc; carquet_batch_reader_config_init(&bc); bc.batch_size = 1 + (int32_t)(L.rng_seed % 50); bc.num_threads = 1;
+            carquet_error_t berr = CARQUET_ERROR_INIT;
+            carquet_batch_reader_t* br = cq::batch_reader_create(o->r, &bc, &berr);
+            if (!br) { exec::check_error_struct(berr, "batch_reader_create"); SIM_COUNT("probe.batch_reader_refuses_repeated_columns"); }
+            else {
+                std::vector<int64_t> got(t.cols.size(), 0); bool refused = false;
+                for (int guard = 0; guard < 100000; guard++) {
+                    carquet_row_batch_t* b = nullptr; carquet_status_t st = cq::batch_reader_next(br, &b);
+                    if (st == CARQUET_ERROR_END_OF_DATA || (st == CARQUET_OK && !b)) { if (b) cq::row_batch_free(b); break; }
+                    if (st != CARQUET_OK) { if (b) cq::row_batch_free(b); refused = true; break; }
+                    for (size_t c = 0; c < t.cols.size() && (int32_t)c < carquet_row_batch_num_columns(b); c++) { const void* d = nullptr; const uint8_t* bm = nullptr; int64_t nv = 0; if (carquet_row_batch_column(b, (int32_t)c, &d, &bm, &nv) == CARQUET_OK) got[c] += nv; }
+                    cq::row_batch_free(b);
+                }
+                cq::batch_reader_free(br);
+                if (refused) SIM_COUNT("probe.batch_reader_refuses_repeated_columns");
+                else for (size_t c = 0; c < t.cols.size(); c++) {
+                    int64_t entries = 0; for (auto& rg : t.rgs) entries += (int64_t)rg.cols[c].entries();
+                    SIM_CHECK(got[c] == entries, "unsupported.batch_reader_drops_repeated_entries", "%s: the batch reader read a file with REPEATED columns to the end without an error, but column %zu (%s d%d r%d) delivered %lld entries of %lld stored",
+                              exec::mode_name(mode), c, type_name(t.cols[c].type), t.cols[c].max_def, t.cols[c].max_rep, (long long)got[c], (long long)entries);
+                }
+            }
+        }
     }
     common::end_of_run_checks();
     ctx.evals = 1;
